@@ -76,8 +76,21 @@ func streamOf(v Value) *StreamObj {
 	return s
 }
 
+// wsFrameReader is the io.Reader conn.NextReader hands out for one data frame.
+type wsFrameReader struct {
+	conn *wsConn
+	idx  int
+	done bool
+}
+
+func (r *wsFrameReader) implements(it *types.Interface) bool { return true }
+func (r *wsFrameReader) invoke(m *Machine, g *Goroutine, method string, args []Value) (Value, stepStatus) {
+	panic(abortf("websocket frame reader: %s called directly (only json.Decoder is modelled on it)", method))
+}
+
 type wsConn struct {
 	id       int
+	binary   map[int]bool // frame i is a binary data frame (text otherwise)
 	frames   []Value
 	writers  int
 	readers  int
@@ -148,6 +161,15 @@ func init() {
 	reg("(*encoding/json.Decoder).Decode", func(m *Machine, g *Goroutine, c *callCtx) (Value, stepStatus) {
 		a := c.args
 		d := m.nativeOf(a[0], "json.Decode").(*jsonDecoder)
+		if iv, ok := d.r.(IfaceVal); ok {
+			if fr, ok := iv.v.(*wsFrameReader); ok {
+				if fr.done {
+					return m.newErrorValue("EOF"), stNext
+				}
+				fr.done = true
+				return m.jsonStoreInto(fr.conn.frames[fr.idx], a[1]), stNext
+			}
+		}
 		if s := streamOf(d.r); s != nil && s.blocking {
 			if !g.atSched && m.maybePreempt(g) {
 				return nil, stBlocked
@@ -282,6 +304,31 @@ func init() {
 		v := conn.frames[conn.readPos]
 		conn.readPos++
 		return m.jsonStoreInto(v, c.args[1]), stNext
+	})
+	// a data frame sent by the other side (any WebSocket JSON-RPC peer): text or binary
+	regV(repoMod+"/jsonrpc2/ws/gorilla.verifPeerWrites", func(m *Machine, g *Goroutine, a []Value) Value {
+		conn := m.nativeOf(a[0], "verifPeerWrites").(*wsConn)
+		if m.branch(a[2].(*Term)) {
+			if conn.binary == nil {
+				conn.binary = map[int]bool{}
+			}
+			conn.binary[len(conn.frames)] = true
+		}
+		conn.frames = append(conn.frames, m.deepCopy(a[1], map[*Obj]*Obj{}))
+		return nil
+	})
+	reg("(*github.com/gorilla/websocket.Conn).NextReader", func(m *Machine, g *Goroutine, c *callCtx) (Value, stepStatus) {
+		conn := m.nativeOf(c.args[0], "NextReader").(*wsConn)
+		if conn.readPos >= len(conn.frames) {
+			return TupleVal{mkInt(-1), IfaceVal{}, m.newErrorValue("EOF")}, stNext
+		}
+		i := conn.readPos
+		conn.readPos++
+		kind := int64(1) // websocket.TextMessage
+		if conn.binary[i] {
+			kind = 2 // websocket.BinaryMessage
+		}
+		return TupleVal{mkInt(kind), IfaceVal{typ: m.ld.ctxMarker, v: &wsFrameReader{conn: conn, idx: i}}, IfaceVal{}}, stNext
 	})
 	regV(repoMod+"/jsonrpc2/ws/gorilla.verifOverlap", func(m *Machine, g *Goroutine, a []Value) Value {
 		conn := m.nativeOf(a[0], "verifOverlap").(*wsConn)
